@@ -342,3 +342,7 @@ def run(chk, facts, tier):
                        "cedar_policy::api::Authorizer::is_authorized"])
     from rules import c01_condition
     c01_condition.check(chk, facts)
+    # 'does not depend on calls made earlier': the only state the library keeps between authorization calls is the FFI's
+    # pre-parse cache; its ownership / replace-on-register discipline is shared with C19
+    from rules import C19 as c19
+    c19.cache_ownership(chk, facts)
